@@ -384,6 +384,42 @@ def to_wire(js):
     return out
 
 
+def valid_stream(js):
+    """is `js` a stream in JSON form (used to keep shrinking inside the case format)"""
+    arity = {'S': 3, 'E': 2, 'T': 3, 'C': 2, 'PI': 3, 'DT': 4, 'XD': 4, 'NS': 3, 'ENS': 2, 'SC': 1, 'EC': 1}
+    if not isinstance(js, list):
+        return False
+    for e in js:
+        if not isinstance(e, list) or not e or e[0] not in arity or len(e) != arity[e[0]]:
+            return False
+        k = e[0]
+        try:
+            if k in ('S', 'E'):
+                if len(e[1]) != 2 or not all(isinstance(x, str) for x in e[1]) or not e[1][1]:
+                    return False
+            if k == 'S':
+                for a in e[2]:
+                    if len(a) != 2 or len(a[0]) != 2 or not a[0][1] or not isinstance(a[1], str):
+                        return False
+                    if not all(isinstance(x, str) for x in a[0]):
+                        return False
+            if k == 'T' and not (isinstance(e[1], str) and isinstance(e[2], bool)):
+                return False
+            if k in ('C',) and not isinstance(e[1], str):
+                return False
+            if k == 'PI' and not (isinstance(e[1], str) and e[1] and isinstance(e[2], str)):
+                return False
+            if k == 'DT' and not (isinstance(e[1], str) and e[1] and all(x is None or isinstance(x, str) for x in e[2:])):
+                return False
+            if k == 'XD' and not (isinstance(e[1], str) and (e[2] is None or isinstance(e[2], str)) and isinstance(e[3], int)):
+                return False
+            if k in ('NS', 'ENS') and not all(isinstance(x, str) for x in e[1:]):
+                return False
+        except (TypeError, IndexError):
+            return False
+    return True
+
+
 def well_nested(js):
     st = []
     for e in js:
